@@ -212,6 +212,7 @@ type world struct {
 	limit  int // mutations allowed before the freeze (-1: no crash)
 	muts   int
 	frozen bool
+	faultMode, hit bool
 
 	idTab    []idInfo          // every id string seen, in order of first appearance
 	idModel  map[string]string // id string -> Gallina term
@@ -243,7 +244,16 @@ func newWorld(r *hx.Rng) *world {
 			}
 
 			if w.limit >= 0 && w.muts == w.limit {
+				if w.faultMode {
+					// a single failing store call: later calls of the same operation are served
+					w.hit = true
+					w.muts++
+
+					return hx.ErrInjected
+				}
+
 				w.frozen = true
+
 				return hx.ErrInjected
 			}
 
@@ -353,7 +363,8 @@ type Op struct {
 	UID   int    `json:"uid,omitempty"` // import: 0 = no requested id, n = caller-chosen id "user-id-n"
 	Key   int    `json:"key,omitempty"` // import: which key of the pool of this key type
 	Ref   int    `json:"ref"`           // rotate/get/export: index into the ids returned so far; -1 = an id never issued
-	Crash int    `json:"crash"`         // -1 none; k = the process dies when it attempts its (k+1)-th store mutation
+	Crash int    `json:"crash"`         // -1 none; k = the call is interrupted at its (k+1)-th store mutation: ...
+	Fault bool   `json:"fault,omitempty"` // ... false: the process dies there (store frozen, key manager reopened); true: only that store call fails
 
 	seq int
 }
@@ -530,7 +541,7 @@ func (w *world) poolKey(op Op) poolKey {
 }
 
 func (w *world) apply(pos int, op Op) Obs {
-	w.limit, w.muts, w.frozen = op.Crash, 0, false
+	w.limit, w.muts, w.frozen, w.faultMode, w.hit = op.Crash, 0, false, op.Fault, false
 	w.rec.Reset()
 
 	w.curImportAtom = -1
@@ -573,8 +584,8 @@ func (w *world) apply(pos int, op Op) Obs {
 		w.kms = mustOpen(w, true)
 	}
 
-	crashed := w.frozen
-	w.limit, w.frozen = -1, false
+	crashed := w.frozen || w.hit
+	w.limit, w.frozen, w.hit = -1, false, false
 
 	calls := w.rec.Snapshot()
 	w.rec.Reset()
@@ -686,7 +697,7 @@ func (w *world) apply(pos int, op Op) Obs {
 
 	w.rec.Record = true
 
-	if crashed || op.Crash >= 0 {
+	if (crashed || op.Crash >= 0) && !op.Fault {
 		// the process died (or was restarted right after the call): a fresh key manager takes over
 		w.kms = mustOpen(w, true)
 	}
@@ -819,7 +830,7 @@ func runHistory(kind string, ops []Op, seed *hx.Rng, tr *hx.Trace) {
 		o := w.apply(i, op)
 		obs = append(obs, o)
 		coqOps = append(coqOps, w.coqOp(op))
-		classParts = append(classParts, fmt.Sprintf("%s/%s/%d/%s", op.Kind, ktClass(op, w, old), op.Crash, o.Out))
+		classParts = append(classParts, fmt.Sprintf("%s/%s/%d%v/%s", op.Kind, ktClass(op, w, old), op.Crash, op.Fault, o.Out))
 
 		kt := ktByName(op.KT)
 		if op.Kind == "rotate" {
@@ -897,6 +908,9 @@ func runHistory(kind string, ops []Op, seed *hx.Rng, tr *hx.Trace) {
 				sig := "durable:" + op.Kind
 				if o.Out == "crashed" {
 					sig = "crash:" + op.Kind + "-loses-key"
+					if op.Fault {
+						sig = "fault:" + op.Kind + "-loses-key"
+					}
 				}
 
 				fail(sig, fmt.Sprintf("op %d (%+v, %s): id %q held keys %v; a fresh key manager now finds present=%v keys=%v",
@@ -939,8 +953,12 @@ func runHistory(kind string, ops []Op, seed *hx.Rng, tr *hx.Trace) {
 			rec.Dist = append(rec.Dist, "kt="+op.KT)
 		}
 
-		if op.Crash >= 0 {
+		if op.Crash >= 0 && !op.Fault {
 			rec.Dist = append(rec.Dist, fmt.Sprintf("crash=%d", op.Crash))
+		}
+
+		if op.Crash >= 0 && op.Fault {
+			rec.Dist = append(rec.Dist, fmt.Sprintf("fault=%d", op.Crash))
 		}
 	}
 
@@ -1280,7 +1298,7 @@ func errStr(e error) string {
 
 // ---------- generators ----------
 
-func refsFor(kinds []string, crashes []int) []Op {
+func refsFor(kinds []string, crashes []int, faults bool) []Op {
 	var a []Op
 
 	for _, k := range kinds {
@@ -1292,6 +1310,9 @@ func refsFor(kinds []string, crashes []int) []Op {
 
 			for _, c := range cs {
 				a = append(a, Op{Kind: k, Ref: ref, Crash: c})
+				if c >= 0 && faults {
+					a = append(a, Op{Kind: k, Ref: ref, Crash: c, Fault: true})
+				}
 			}
 		}
 	}
@@ -1330,9 +1351,9 @@ func alphabet(kts []string, full bool) []Op {
 		}
 	}
 
-	a = append(a, refsFor([]string{"rotate", "get"}, crashes)...)
+	a = append(a, refsFor([]string{"rotate", "get"}, crashes, full)...)
 	if full {
-		a = append(a, refsFor([]string{"export"}, crashes)...)
+		a = append(a, refsFor([]string{"export"}, crashes, full)...)
 	}
 
 	a = append(a, Op{Kind: "reopen", Crash: -1, Ref: -1})
@@ -1417,6 +1438,7 @@ func randomHistory(r *hx.Rng, n int) []Op {
 
 		if o.Kind != "reopen" && o.Kind != "get" && o.Kind != "export" && r.Intn(3) == 0 {
 			o.Crash = r.Intn(3)
+			o.Fault = r.Intn(3) == 0
 		}
 
 		ops = append(ops, o)
@@ -1526,14 +1548,20 @@ func main() {
 						continue
 					}
 
-					runHistory("sweep", []Op{
-						{Kind: first, KT: kt.name, UID: 1, Ref: -1, Crash: -1},
-						{Kind: "rotate", Ref: 0, Crash: c1},
-						{Kind: "rotate", Ref: 1, Crash: c2},
-						{Kind: "rotate", Ref: 0, Crash: -1},
-						{Kind: "get", Ref: 2, Crash: -1},
-						{Kind: "export", Ref: 1, Crash: -1},
-					}, next(), tr)
+					for _, flt := range []bool{false, true} {
+						if flt && c1 < 0 && c2 < 0 {
+							continue
+						}
+
+						runHistory("sweep", []Op{
+							{Kind: first, KT: kt.name, UID: 1, Ref: -1, Crash: -1},
+							{Kind: "rotate", Ref: 0, Crash: c1, Fault: flt},
+							{Kind: "rotate", Ref: 1, Crash: c2, Fault: flt},
+							{Kind: "rotate", Ref: 0, Crash: -1},
+							{Kind: "get", Ref: 2, Crash: -1},
+							{Kind: "export", Ref: 1, Crash: -1},
+						}, next(), tr)
+					}
 				}
 			}
 		}
